@@ -1,0 +1,22 @@
+package openapi
+
+import "encoding/json"
+
+// schemaObjectEmpty represents a user type with the JSight pseudo-notation "empty"
+// (the absence of any content): a schema which does not match any value.
+type schemaObjectEmpty struct {
+	Description string
+}
+
+func (s *schemaObjectEmpty) SetDescription(d string) {
+	s.Description = d
+}
+
+func (s schemaObjectEmpty) MarshalJSON() ([]byte, error) {
+	return json.Marshal(&struct {
+		Not         struct{} `json:"not"`
+		Description string   `json:"description,omitempty"`
+	}{
+		Description: s.Description,
+	})
+}
